@@ -12,10 +12,15 @@ class PrintCheck(object):
     """A property decided in the PRINT world with its own generation profile."""
     world = "PRINT"
 
+    RUNS = {"C01": (16000, 600000), "C02": (24000, 900000), "C03": (20000, 700000), "C04": (30000, 1000000),
+            "C05": (30000, 1000000), "C06": (30000, 1000000), "C07": (6000, 200000), "C14": (20000, 700000),
+            "C15": (30000, 1000000)}
+
     def __init__(self, prop, tune, rule):
         self.prop = prop
         self.tune = tune
         self.rule = rule
+        self.runs = self.RUNS[prop]
 
     def generate(self, rng):
         k = gen.knobs(rng, self.prop)
@@ -206,7 +211,7 @@ register(PrintCheck("C15", tune_c15, "script-hook return values against the life
 # --- API world -------------------------------------------------------------------------------------------
 class ApiCheck(object):
     world = "API"
-    runs = (6000, 400000)
+    runs = (50000, 2000000)
 
     def __init__(self, prop, rule):
         self.prop = prop
@@ -241,7 +246,7 @@ register(ApiCheck("C13", "after every step: ids unique; GET payload (real jsonif
 class FuzzCheck(object):
     world = "FUZZ"
     prop = "C09"
-    runs = (5000, 300000)
+    runs = (40000, 1500000)
     rule = ("wide-grammar command streams after G28 through the live hooks (stub comm) and through "
             "StreamProcessor.process_line on a snapshot: no exception leaves an entry point while the axes are "
             "homed; live result is None, a suppress tuple or a non-empty list of non-empty str; offline result is "
@@ -269,7 +274,7 @@ register(FuzzCheck())
 class LifeCheck(object):
     world = "LIFECYCLE"
     prop = "C11"
-    runs = (6000, 400000)
+    runs = (50000, 2000000)
     rule = ("lifecycle reference state machine driven by delivered events under an adversarial bus: plugin "
             "active flag == model after every delivery; while inactive the gcode hook returns None, the script "
             "hook None, the @-hook sends nothing and a structural state snapshot is unchanged by the call; "
@@ -297,7 +302,7 @@ register(LifeCheck())
 class RestartCheck(object):
     world = "RESTART"
     prop = "C10"
-    runs = (3000, 200000)
+    runs = (25000, 800000)
     rule = ("phase 1 = arbitrary history cut at an arbitrary op; then PRINT_STARTED to the used plugin and to a "
             "freshly built plugin given the same settings store and copies of the regions; phase 2 = one schedule "
             "(program text, API, events, script hooks) applied to both: hook results, comm sends, script-hook "
@@ -381,7 +386,7 @@ register(RestartCheck())
 class TwinCheck(object):
     world = "TWIN-PRINT"
     prop = "C08"
-    runs = (3000, 200000)
+    runs = (30000, 1000000)
     rule = ("base run (mm, absolute) vs re-encoded twin under the same schedule (G20 / G91 / G92 X Y Z inserted "
             "at an arbitrary step, or path and every region request translated by one vector): per abstract step "
             "same forwarded/suppressed decision, same excluding flag, printer positions equal within 2e-4 mm "
@@ -441,3 +446,121 @@ class TwinCheck(object):
 
 
 register(TwinCheck())
+
+
+# --- C20 -------------------------------------------------------------------------------------------------
+def decorate_file(rng, lines, eol, nlines):
+    """Program lines -> file lines with comments, indentation, blank / comment-only lines, N-numbers+checksums."""
+    out = []
+    n = 0
+    for text in lines:
+        while rng.random() < 0.12:
+            out.append(rng.choice(["", "   ", "; just a comment", "  ; indented comment", ";", "\t"]) + eol)
+        t = text
+        if nlines and not t.startswith("@"):
+            n += 1
+            body = "N%d %s" % (n, t)
+            cs = 0
+            for b in bytearray(body.encode()):
+                cs ^= b
+            t = "%s*%d" % (body, cs)
+        if rng.random() < 0.2:
+            t = rng.choice(["  ", " ", "    "]) + t
+        if rng.random() < 0.3:
+            t = t + rng.choice([" ; comment", ";c", "   ;   spaced comment", " ;"])
+        elif rng.random() < 0.1:
+            t = t + "  "
+        out.append(t + eol)
+    return out
+
+
+class OfflineCheck(object):
+    world = "OFFLINE"
+    prop = "C20"
+    runs = (16000, 600000)
+    rule = ("per file line: StreamProcessor.process_line output, split on the EOL and canonicalised with the host's "
+            "process_gcode_line, == what a twin GcodeHandlers on an equal state yields for the command the live hooks "
+            "would receive; returned text ends with the file's EOL; lines the live path leaves alone (handler says "
+            "unchanged, blank / comment lines, @-lines without a matching action) come back byte-identical; a "
+            "structural snapshot of the live state is unchanged by every offline step and the live outputs equal a "
+            "control run without the uploader")
+    rule_state = ("distinct (snapshot state: active, excluding, enabled, retraction, pending, XYZ mode, units, "
+                  "unhomed) and (line kind, unchanged, dropped, offline excluding, terminated) tuples")
+
+    def generate(self, rng):
+        from .worlds.printworld import prerender
+        k = gen.knobs(rng, "C20")
+        k["nregions"] = rng.choice([1, 1, 2, 3])
+        k["retract"] = rng.choice(["e", "e", "fw"])
+        k["w"]["retract"] = 12
+        k["w"]["at_switch"] = 2
+        k["w"]["mode"] = 1.5
+        k["w"]["units"] = 1
+        k["prints"] = 1
+        k["p_abort"] = 0.3
+        k["aim_w"] = [50, 5, 10, 35]
+        cfg, ops1, g1 = gen.gen_print_schedule(rng, "C20", k, return_gen=True)
+        cut = rng.randrange(1, len(ops1) + 1)
+        live_rest = ops1[cut:]
+        ops1 = ops1[:cut]
+        # the file: a program of its own, rendered to text at generation time
+        k2 = gen.knobs(rng, "C20")
+        k2["prints"] = 1
+        k2["nregions"] = 0
+        k2["nops"] = rng.choice([5, 10, 20, 40])
+        k2["w"]["retract"] = 12
+        k2["w"]["at_switch"] = 2
+        k2["w"]["at_noop"] = 2
+        k2["w"]["other"] = 10
+        k2["w"]["arc"] = rng.choice([0, 0, 4])
+        for key in ("region_add", "region_grow", "region_shrink", "region_refused", "terminal", "pump", "clock",
+                    "logfail", "pause", "api_get", "settings_same"):
+            k2["w"][key] = 0
+        _c, fops = gen.gen_print_schedule(rng, "C20", k2, regions=g1.regions, nid=g1.nid + 100)
+        fops = [op for op in fops if op["op"] in PrintWorld.SENDER_OPS]
+        if rng.random() < 0.2:
+            fops = [op for op in fops if op["op"] != "home"]
+        lines = [op["text"] for op in prerender(cfg, fops, g90e=cfg["g90e"])]
+        eol = rng.choice(["\n", "\n", "\r\n"])
+        nlines = rng.random() < 0.1
+        flines = decorate_file(rng, lines, eol, nlines)
+        if flines:
+            r = rng.random()
+            if r < 0.25:
+                flines[-1] = flines[-1][:-len(eol)]                      # no final terminator
+            elif r < 0.4:
+                body = flines[-1][:-len(eol)]
+                flines[-1] = body[:rng.randrange(0, len(body) + 1)]      # torn last line
+        ups = [{"op": "upload_line", "text": t} for t in flines]
+        # interleave the rest of the live traffic with the upload, maybe abandon and start over
+        out = list(ops1) + [{"op": "upload_new"}]
+        live_rest = list(live_rest)
+        while ups or live_rest:
+            if ups and (not live_rest or rng.random() < 0.7):
+                out.append(ups.pop(0))
+                if rng.random() < 0.02:
+                    out.append({"op": "upload_abandon"})
+                    out.append({"op": "upload_new"})
+            else:
+                out.append(live_rest.pop(0))
+        cfg["nlines"] = nlines
+        return cfg, out
+
+    def execute(self, cfg, schedule):
+        from .worlds.offlineworld import OfflineWorld
+        w = OfflineWorld(cfg)
+        v = w.run(schedule)
+        if v is None:
+            c = OfflineWorld(cfg, with_uploader=False)
+            c.run(schedule)
+            if c.live_digest() != w.live_digest():
+                v = {"property": "C20", "clause": "C20.isolation_control", "op": len(schedule) - 1,
+                     "message": "the live outputs differ from a control run of the same schedule without the uploader"}
+        inter = "".join("U" if op["op"].startswith("upload") else _ACTOR.get(op["op"], "s") for op in schedule)
+        st = w.stats
+        st.update({k_: v_ for k_, v_ in w.live.stats.items() if k_.startswith(("fault:", "op:"))})
+        return {"violation": v, "digest": w.digest(), "stats": st, "abs_states": w.abs_states,
+                "ncalls": w.ncalls + w.live.call_index + 1, "sim_time": 0.0, "interleaving": hash_str(inter)}
+
+
+register(OfflineCheck())
